@@ -109,11 +109,17 @@ def judge_integer_text(M, p, variant, a, b, text):
             M.unspec += 1
             continue
         sign = left if left in ('+', '-') else None
+        glued_sign = False
         if sign:
             before = text[s - 2] if s > 1 else None
-            if before is not None and (before in WORD or before in '+-' or not before.isascii()):
+            if before is not None and before in '+-':
                 M.unspec += 1
                 continue
+            if before is not None and re.match(r'\w', before):
+                # a sign glued to a word character is not a sign (docs: in '1+2' the signed variant finds only '1'):
+                # the signed variants do not match the numeral, the plain one matches the digits only.
+                # This must not depend on whether that word character is ASCII.
+                glued_sign = True
         valid = int_ok(N, a, b)
         if variant in ('pos', 'neg') and valid and int(N) == 0:
             M.unspec += 1
@@ -121,6 +127,8 @@ def judge_integer_text(M, p, variant, a, b, text):
         exp = None          # expected span or 'none'
         if not valid:
             exp = 'none'
+        elif glued_sign:
+            exp = (s, e) if variant == 'int' else 'none'
         elif variant == 'int':
             exp = (s, e)
         elif variant == 'int+sign':
@@ -183,7 +191,8 @@ def int_candidates(a, b, rnd):
 
 
 CTX = [('', ''), (' ', ' '), ('(', ')'), ('+', ''), ('-', ' '), (' +', ','), ('=-', ';'), ('x', ''), ('', 'x'), ('_', ' '), ('1+', ''),
-       ('a-', ''), ('--', ''), (',', '.'), ('\n', '\n'), ('$', '%'), ('', '.5'), ('0.', ''), (':', ':'), ('#', ''), ('', '-'), ('é', ' ')]
+       ('a-', ''), ('--', ''), (',', '.'), ('\n', '\n'), ('$', '%'), ('', '.5'), ('0.', ''), (':', ':'), ('#', ''), ('', '-'), ('é', ' '),
+       ('é-', ' '), ('Straße+', ''), ('中-', ','), ('_+', ' '), ('9-', ''), ('Ω+', ')')]
 
 
 def int_texts(cands, rnd):
@@ -248,8 +257,8 @@ def run_int(M, case):
 
 def run_int_invalid(M, case):
     for variant in INT_VARIANTS:
-        for a in (-1, 0, 1, 6, 10, 1.5, '0', None, -3):
-            for b in (-1, 0, 5, 9, 10, 2147483647, '5', 2.5, None):
+        for a in (-1, 0, 1, 6, 10, 1.5, '0', None, -3, 0.0, 1.0, 10.0):
+            for b in (-1, 0, 5, 9, 10, 2147483647, '5', 2.5, None, 5.0, 9.0, 2147483647.0):
                 for ext in (False, True):
                     bad = set()
                     if not isinstance(a, int) or not isinstance(b, int):
@@ -342,16 +351,17 @@ def int_bounds_expect(a, b):
 
 
 def run_dec_invalid(M, case):
-    mins = [0, -1, 1, 2, 3, 1.5, '1', True, None]
-    maxs = [None, 0, 1, 2, 3, 5, -1, 2.5, '3', True]
+    mins = [0, -1, 1, 2, 3, 1.5, '1', True, None, 1.0, 2.0]
+    maxs = [None, 0, 1, 2, 3, 5, -1, 2.5, '3', True, 3.0, 5.0]
     for variant, (sg, mk) in DEC_VARIANTS.items():
         for mn in mins:
             for mx in maxs:
                 for ext in (False, True):
                     exc = dec_bounds_expect(mn, mx)
                     M.build('%s(0,5,%r,%r,is_extensible=%r)' % (variant, mn, mx, ext), lambda: mk(0, 5, mn, mx, is_extensible=ext), exc or None)
-        for a in (-1, 0, 1, 6, 1.5, '1', None):
-            for b in (-1, 0, 5, 7, '5', 2.5, None):
+        import fractions
+        for a in (-1, 0, 1, 6, 1.5, '1', None, 0.0, 1.0, fractions.Fraction(1)):
+            for b in (-1, 0, 5, 7, '5', 2.5, None, 5.0, 7.0):
                 exc = int_bounds_expect(a, b)
                 if exc is None:
                     continue
@@ -449,9 +459,9 @@ def word_expect(mn, mx):
 
 
 def run_numeral_invalid(M, case):
-    for base in (1, 2, 10, 16, 17, 0, -2, 2.5, '10', None, True):
-        for nmin in (0, 1, 3, -1, 1.5, '1', True, None):
-            for nmax in (None, 0, 1, 2, 5, -1, 2.5, '2', True):
+    for base in (1, 2, 10, 16, 17, 0, -2, 2.5, '10', None, True, 10.0, 16.0):
+        for nmin in (0, 1, 3, -1, 1.5, '1', True, None, 1.0):
+            for nmax in (None, 0, 1, 2, 5, -1, 2.5, '2', True, 5.0):
                 for ext in (False, True):
                     exc = numeral_expect(base, nmin, nmax)
                     M.build('Numeral(%r,%r,%r,ext=%r)' % (base, nmin, nmax, ext), lambda: ME.Numeral(base, nmin, nmax, is_extensible=ext), exc or None)
@@ -559,6 +569,13 @@ def run_word(M, case):
     # with the affixes as literals (decided structurally => for all texts)
     affs = rnd.sample(HOSTILE_AFFIX, rnd.choice([1, 2, 3])) + (['ab'] if rnd.random() < 0.5 else [])
     rnd.shuffle(affs)
+    k = rnd.random()
+    if k < 0.12:
+        affs = list('0123456789')
+    elif k < 0.2:
+        affs = [' ', '\t', '\n', '\r', '\x0b', '\x0c']
+    elif k < 0.3:
+        affs = rnd.sample(list('abcxyz0123456789_-.$'), rnd.choice([3, 5, 8]))
     wc = '[A-Za-z0-9_]'
     for cls, tmpl in [(ME.WordContains, '(?:%(w)s)*(?:%(a)s)(?:%(w)s)*'), (ME.WordStartsWith, '(?:%(a)s)(?:%(w)s)*'),
                       (ME.WordEndsWith, '(?:%(w)s)*(?:%(a)s)')]:
@@ -570,8 +587,25 @@ def run_word(M, case):
             ref = tmpl % {'w': wc, 'a': alt}
             if not ext:
                 ref = '\\b(?:' + ref + ')\\b'
+            if g:
+                ref = ref.replace(wc, '\\w')
             a, b = C.parse(str(q)), C.parse(ref)
             ok = (not a.error) and a.key == b.key
+            if ok:
+                # (the surrounding non-global word class is [A-Za-z\d_] - what \d adds beyond 0-9 is left unspecified,
+                #  so the reference mirrors it there; the *affixes* are what is under test)
+                if not g:
+                    ref = ref.replace(wc, '[A-Za-z\\d_]')
+                # the canonical form identifies \d \s \w with their ASCII bases; the affixes are *literal*, so real and
+                # reference must also agree on words with non-ASCII digits / spaces / letters
+                ca, cb = re.compile(str(q), C.FL), re.compile(ref, C.FL)
+                for t in ('x٣y ५k no３ ١٢ z9 7up', 'a\u00a0b c\u2003d e f', 'füring éx Жук9 ab', ' '.join(affs) + ' ٣' + affs[0] + ' ' + affs[-1] + 'é'):
+                    if [m.span() for m in ca.finditer(t)] != [m.span() for m in cb.finditer(t)]:
+                        M.counts['affix-unicode-diff'] += 1
+                        M.expect(False, 'meta:affix-not-literal', '%s(%r, is_global=%r, is_extensible=%r) emitted %r: on %r it matches %r, the literal '
+                                 'reference %r' % (cls.__name__, affs, g, ext, str(q), t, [m.group(0) for m in ca.finditer(t)],
+                                                   [m.group(0) for m in cb.finditer(t)]), 'affix-unicode')
+                        break
             if not ok and not a.error:
                 # fall back on behaviour over words built from the affixes
                 ca, cb = re.compile(str(q), C.FL), re.compile(ref, C.FL)
